@@ -835,8 +835,9 @@ fn build_matcher_tree(
                     ));
                 }
 
-                let bracket = args[i - 1];
-                if bracket == "(" {
+                // Nothing between the brackets (an operand "(" of the test before
+                // the bracket, as in -name '(', is not an opening bracket).
+                if i == arg_index {
                     return Err(From::from(
                         "invalid expression; empty parentheses are not allowed.",
                     ));
